@@ -22,6 +22,9 @@ CONFIGS = {
                                                               'max_out': 3, 'max_notifications': 3}, 7),
     ('aperture n=3 min_size=2', {'kind': 'aperture', 'n': 3, 'min_size': 2, 'ops': ['D', 'C', 'Down', 'Up', 'Adv', 'Leave'],
                                  'max_out': 4, 'max_down': 1, 'advs': [1, 3], 'max_notifications': 1}, 6),
+    ('aperture n=3 min_size=1, endpoints are named tuples', {'kind': 'aperture', 'n': 3, 'min_size': 1, 'tuple_endpoints': True,
+                                                             'ops': ['D', 'C', 'Down', 'Adv', 'Leave'], 'max_out': 4, 'max_down': 1, 'advs': [3],
+                                                             'max_notifications': 1}, 6),
     ('heap n=3, the reply handler above the balancer dispatches the next request', {'kind': 'heap', 'n': 3, 'ops': ['D', 'C', 'CD'],
                                                                                      'max_out': 3}, 7),
     ('aperture n=4 min_size=3, a loaded aperture with one member going down', {'kind': 'aperture', 'n': 4, 'min_size': 3,
